@@ -100,6 +100,7 @@ BUDGET = 250_000
 MAX_BUDGET_HITS = 60  # then the shard stops: the violation is established, avoid the watchdog
 MODES = ("sync", "async", "sync+cache", "async+cache")
 ESC_MODES = ("sync+escape", "async+escape")  # Environment(auto_escape=True), hostile data
+NOSUP_MODES = ("sync+nosup", "async+nosup", "sync+cache+nosup", "async+cache+nosup")
 ESC_D = "<D&\"'>"
 PATH_EVERY = {"cyc": 2}  # every n-th case is also run with path-like template names (default 8)
 DATA = {"d": "D", "yes": True, "no": False}
@@ -268,6 +269,12 @@ class Runner:
         self.LiquidError = LiquidError
         self.Req = RequiredBlockError
         self.TIE = TemplateInheritanceError
+        class NoSupEnv(Environment):
+            suppress_blank_control_flow_blocks = False
+
+        self.NoSupEnv = NoSupEnv
+        self.nosup_cur = False  # also render with blank-block suppression switched off
+        self.ws_cur = False  # the program carries blank (whitespace/comment/assign) bodies
         self.sc = StepCounter().start()
         self.minimised: dict[str, list[str]] = {}
         self.flip = False
@@ -311,7 +318,7 @@ class Runner:
             self.steps = sc.disarm()
 
     def observe(self, sources: dict[str, str], entry: str, data: dict,
-                esc: bool = False) -> dict[str, tuple]:
+                esc: bool = False, nosup: bool = False) -> dict[str, tuple]:
         env1 = self.Environment(loader=self.DictLoader(dict(sources)))
         env2 = self.Environment(loader=self.CachingDictLoader(dict(sources)))
         obs: dict[str, tuple] = {}
@@ -327,10 +334,20 @@ class Runner:
             d2 = {**data, "d": ESC_D}
             obs["sync+escape"] = self._one(env3, entry, d2, False)
             obs["async+escape"] = self._one(env3, entry, d2, True)
+        if nosup:
+            env4 = self.NoSupEnv(loader=self.DictLoader(dict(sources)))
+            env5 = self.NoSupEnv(loader=self.CachingDictLoader(dict(sources)))
+            obs["sync+nosup"] = self._one(env4, entry, data, False)
+            obs["async+nosup"] = self._one(env4, entry, data, True)
+            for a in ((False, True) if self.flip else (True, False)):
+                obs["async+cache+nosup" if a else "sync+cache+nosup"] = self._one(env5, entry, data, a)
         return obs
 
     # -- judgement --------------------------------------------------------------
-    def judge(self, E: M.Outcome, A: tuple) -> str | None:
+    def judge(self, E: M.Outcome, A: tuple, modws: bool = False) -> str | None:
+        """modws: compare texts with all whitespace removed (suppression of blank
+        bodies is on and the program has blank bodies: what happens to the whitespace
+        of a blank body is the suppression feature's business, not this property's)."""
         if A[0] == "budget":
             return "no-termination-within-step-budget"
         if A[0] == "recursion":
@@ -340,6 +357,8 @@ class Runner:
             return f"unexpected-{A[1]}"
         if E.kind == "out":
             if A[0] == "out":
+                if modws:
+                    return None if _nows(A[1]) == _nows(E.text) else "wrong-output"
                 return None if A[1] == E.text else "wrong-output"
             if E.dont_care and A[3]:
                 return None
@@ -409,11 +428,12 @@ class Runner:
         standalone = _has_standalone_block_include(prog)
         esc = esc and not standalone
         E = M.expected(prog, entry, data)
-        obs = self.observe(M.emit(prog), entry, data, esc)
+        obs = self.observe(M.emit(prog), entry, data, esc, self.nosup_cur)
         Eesc = M.expected(prog, entry, {**data, "d": ESC_D}, escape=True) if esc else None
         self.last_Eesc = Eesc
         exp = {m: (Eesc if m in ESC_MODES else E) for m in obs}
-        bad = {m: self.judge(exp[m], a) for m, a in obs.items()}
+        bad = {m: self.judge(exp[m], a, modws=self.ws_cur and m not in NOSUP_MODES)
+               for m, a in obs.items()}
         bad = {m: w for m, w in bad.items() if w}
         self.standalone_dc = False
         if standalone:
@@ -428,8 +448,14 @@ class Runner:
                     return None, E2, obs
         if not bad:
             return None, E, obs
-        modes = [m for m in (*MODES, *ESC_MODES) if m in obs]
+        modes = [m for m in (*MODES, *ESC_MODES, *NOSUP_MODES) if m in obs]
         m0 = next(m for m in modes if m in bad)
+        if (self.nosup_cur and set(bad.values()) == {"wrong-output"}
+                and not any(m in NOSUP_MODES for m in bad)
+                and all(m in bad for m in MODES)
+                and len(_nows(obs[m0][1])) < len(_nows(E.text))):
+            # right with suppression of blank bodies switched off, text missing with it on
+            return self.what_prefix + "output-dropped-by-blank-suppression", E, obs
         if m0 in ESC_MODES:
             what = self.refine_esc(bad[m0], prog, entry, {**data, "d": ESC_D}, obs[m0])
         else:
@@ -461,6 +487,8 @@ class Runner:
         n = self.case_no
         uses_super = any(it[0] == "s" for items in prog.values() for it, _ in M.walk(items))
         self.esc_cur = family == "ctl" or n % 16 == 0 or (uses_super and n % 3 == 0)
+        self.nosup_cur = family == "blank" or n % 32 == 0
+        self.ws_cur = family == "blank"
         self.what_prefix = ""
         key = self._case_one(family, prog, entry, data)
         if n % PATH_EVERY.get(family, 8) == 0:
@@ -480,6 +508,8 @@ class Runner:
         ctx = self.ctx
         what, E, obs = self.evaluate(prog, entry, data)
         ctx.ev(len(obs))
+        if self.nosup_cur:
+            ctx.count("nosuppress_cases")
         if self.last_Eesc is not None:
             ctx.count("auto_escape_cases")
             ctx.count("auto_escape_supers_checked", self.last_Eesc.stats["supers"])
@@ -551,6 +581,7 @@ class Runner:
         ctx.violation(key, descr[:700], {
             "family": family, "prog": wprog, "entry": entry, "data": data,
             "esc": self.esc_cur, "what_prefix": self.what_prefix,
+            "nosup": self.nosup_cur, "ws": self.ws_cur,
             "sources": M.emit(wprog), "expected": list(wE.sig()),
             "observed": {m: list(a) for m, a in wobs.items()},
         })
@@ -695,6 +726,10 @@ class Runner:
                     progress = True
                     break
         return cur
+
+
+def _nows(s: str) -> str:
+    return "".join(s.split())
 
 
 def _has_standalone_block_include(prog: dict) -> bool:
@@ -1251,6 +1286,112 @@ def _fam_exh4(r: Runner, spec: dict, ctx: Ctx) -> None:
 
 
 # ---------------------------------------------------------------------------
+# blank bodies: a block as the sole non-blank content of an enclosing body
+# ---------------------------------------------------------------------------
+
+BLANK_BODIES = {
+    "empty": [],
+    "ws": [["t", " \n "]],
+    "comment": [["c", "note"]],
+    "assign": [["as", "w", "W"]],
+    "mixed": [["t", "\n  "], ["c", "note"], ["as", "w", "W"], ["t", "\n"]],
+    "text": [["t", "<x0>"]],  # control: not blank
+}
+ENCLOSURES = ("none", "block", "if", "unless", "for", "case", "with", "block>if", "if>for",
+              "if-padded", "for-padded")
+PLACEMENTS = ("root-top", "root-outer-block", "root-outer-block-via-super", "mid-override",
+              "leaf-override")
+OVERRIDES = ("none", "text", "ws-only", "empty", "super+text", "mid-text")
+
+
+def _enclose(item: list, kind: str) -> list:
+    """item wrapped so that it is the only non-blank content of the wrapper's body."""
+    pad = lambda xs: [["t", "\n  "], *xs, ["t", "\n"]]  # noqa: E731
+    if kind == "none":
+        return [item]
+    if kind == "block":
+        return [["b", "w", False, [item], None]]
+    if kind == "if":
+        return [["if", "yes", [item]]]
+    if kind == "if-padded":
+        return [["if", "yes", pad([["as", "w", "W"], item])]]
+    if kind == "unless":
+        return [["unless", "no", None, [item]]]
+    if kind == "for":
+        return [["for", "i", 2, [item]]]
+    if kind == "for-padded":
+        return [["for", "i", 2, pad([item, ["c", "c"]])]]
+    if kind == "case":
+        return [["case", "d", "D", [item]]]
+    if kind == "with":
+        return [["with", "q", "d", [item]]]
+    if kind == "block>if":
+        return [["b", "w", False, [["if", "yes", [item]]], None]]
+    return [["if", "yes", [["for", "i", 1, [item]]]]]
+
+
+def blank_cases() -> Iterator[tuple[dict, str, str]]:
+    for body_kind, body in BLANK_BODIES.items():
+        for req in (False, True):
+            for enc in ENCLOSURES:
+                for place in PLACEMENTS:
+                    for ov in OVERRIDES:
+                        xdef = ["b", "x", req, copy.deepcopy(body), None]
+                        core = _enclose(xdef, enc)
+                        xov = {
+                            "none": None,
+                            "text": [["t", "<X2>"]],
+                            "mid-text": [["t", "<X2>"]],
+                            "ws-only": [["t", "  \n"]],
+                            "empty": [],
+                            "super+text": [["t", "<X2:"], ["s"], ["t", ">"]],
+                        }[ov]
+                        t0: list
+                        t1: list = [["x", "t0"], ["t", "~1~"]]
+                        t2: list = [["x", "t1"], ["t", "~2~"]]
+                        if place == "root-top":
+                            t0 = [["t", "R("], *core, ["t", ")R"]]
+                        elif place in ("root-outer-block", "root-outer-block-via-super"):
+                            t0 = [["t", "R("], ["b", "o", False, core, None], ["t", ")R"]]
+                            if place.endswith("super"):
+                                t2.append(["b", "o", False, [["t", "<O2:"], ["s"], ["t", ">"]], None])
+                        elif place == "mid-override":
+                            t0 = [["t", "R("], ["b", "o", False, [["t", "<o0>"]], None], ["t", ")R"]]
+                            t1.append(["b", "o", False, core, None])
+                        else:
+                            t0 = [["t", "R("], ["b", "o", False, [["t", "<o0>"]], None], ["t", ")R"]]
+                            t2.append(["b", "o", False, core, None])
+                            if ov != "none":
+                                continue  # x is defined in the leaf itself
+                        if xov is not None:
+                            if ov == "mid-text":
+                                if place == "mid-override":
+                                    continue  # would duplicate x in t1
+                                t1.append(["b", "x", False, xov, None])
+                            else:
+                                t2.append(["b", "x", False, xov, None])
+                        yield ({"t0": t0, "t1": t1, "t2": t2}, "t2",
+                               f"{body_kind}/{'req' if req else 'opt'}/{enc}/{place}/{ov}")
+
+
+def _fam_blank(r: Runner, spec: dict, ctx: Ctx) -> None:
+    last = None
+    for idx, (prog, entry, label) in enumerate(blank_cases()):
+        if idx % spec["n"] != spec["i"]:
+            continue
+        r.case("blank", prog, entry)
+        parts = label.split("/")
+        if parts[0] != "text" and parts[2] != "none" and parts[4] in ("text", "super+text", "mid-text"):
+            ctx.count("blank_sole_content_overridden")
+        ctx.seen("blank_enclosures", parts[2])
+        ctx.seen("blank_body_kinds", parts[0])
+        last = (prog, entry, label)
+    if last:
+        ctx.sample({"family": "blank", "label": last[2], "sources": M.emit(last[0]), "entry": last[1],
+                    "expected": M.expected(last[0], last[1], DATA).sig()})
+
+
+# ---------------------------------------------------------------------------
 # histories: several renders of DIFFERENT entries on ONE environment
 # ---------------------------------------------------------------------------
 
@@ -1325,7 +1466,7 @@ def _fam_hist(r: Runner, spec: dict, ctx: Ctx) -> None:
 
 
 FAMILIES = {"exh": _fam_exh, "ctl": _fam_ctl, "struct": _fam_struct, "cyc": _fam_cyc,
-            "entry": _fam_entry, "samp": _fam_samp, "exh4": _fam_exh4, "hist": _fam_hist}
+            "entry": _fam_entry, "samp": _fam_samp, "exh4": _fam_exh4, "hist": _fam_hist, "blank": _fam_blank}
 
 # ---------------------------------------------------------------------------
 # framework interface
@@ -1354,6 +1495,8 @@ def shards(tier: str, seed: int) -> list[dict[str, Any]]:  # noqa: ARG001
     n = 2 if q else 16
     for i in range(n):
         specs.append({"kind": "hist", "i": i, "n": n})
+    for i in range(2):
+        specs.append({"kind": "blank", "i": i, "n": 2})
     if not q:
         for i in range(32):
             specs.append({"kind": "exh4", "i": i, "n": 32})
@@ -1375,6 +1518,11 @@ def floors(tier: str) -> dict[str, int]:
         "cases_struct": 1_000,
         "cases_entry_after_chain": 800 if q else 8_000,
         "histories": 7_000 if q else 200_000,
+        "cases_blank": 2_000,
+        "blank_sole_content_overridden": 800,
+        "set:blank_enclosures": 11,
+        "set:blank_body_kinds": 6,
+        "nosuppress_cases": 3_000,
         "path_named_chains": 3_000 if q else 50_000,
         "path_named_cyclic": 500,
         "path_named_histories": 1_000 if q else 30_000,
@@ -1432,6 +1580,8 @@ def replay(wit: dict[str, Any], ctx: Ctx) -> None:
             return
         prog, entry, data = wit["prog"], wit["entry"], wit.get("data") or DATA
         r.esc_cur = bool(wit.get("esc"))
+        r.nosup_cur = bool(wit.get("nosup"))
+        r.ws_cur = bool(wit.get("ws"))
         r.what_prefix = wit.get("what_prefix") or ""
         what, E, obs = r.evaluate(prog, entry, data)
         print(f"replay C08: family={wit.get('family')} entry={entry} data={data}")
@@ -1443,7 +1593,9 @@ def replay(wit: dict[str, Any], ctx: Ctx) -> None:
             print(f"  expected under auto_escape with d={ESC_D!r}: {r.last_Eesc.sig()!r}")
         for m in obs:
             Em = r.last_Eesc if m in ESC_MODES else E
-            print(f"  observed {m:12s}: {obs[m]!r}  -> {r.judge(Em, obs[m]) or 'ok'}")
+            mw = r.ws_cur and m not in NOSUP_MODES
+            print(f"  observed {m:17s}: {obs[m]!r}  -> {r.judge(Em, obs[m], modws=mw) or 'ok'}"
+                  + (" (compared modulo whitespace)" if mw else ""))
         if what:
             key = f"{shape(prog, entry)}:{what}"
             print(f"  key={key}")
